@@ -1177,6 +1177,21 @@ impl HttpRequest for SimHttp {
                             forgery = Some("replay of an earlier genuine response");
                         }
                     }
+                    Auth::ReplaySignature(i) => {
+                        if g.genuine.is_empty() {
+                            authentic = false;
+                            forgery = Some("no etag");
+                        } else {
+                            let n = g.genuine.len();
+                            let old = g.genuine[n - 1 - (i % n)].etag.clone();
+                            let sig = old.split(':').next().unwrap_or("").to_string();
+                            let fresh = sign(key_idx.unwrap(), &body_bytes).unwrap_or_default();
+                            let hash = fresh.split(':').nth(1).unwrap_or("").to_string();
+                            etag = Some(format!("{sig}:{hash}"));
+                            authentic = false;
+                            forgery = Some("signature of an earlier genuine exchange with this request's hash");
+                        }
+                    }
                     Auth::ReplayEtag(i) => {
                         if g.genuine.is_empty() {
                             authentic = false;
